@@ -19,13 +19,24 @@ def scratch() -> str:
         os.environ["TMPDIR"] = _SCRATCH
         tempfile.tempdir = _SCRATCH
         os.chdir(_SCRATCH)
+        # Workspace.close shells out to h5repack when nodes were deleted; it is not installed in this sandbox and
+        # the failure is swallowed by geoh5py. A silent failing stub keeps that behaviour without the stderr noise.
+        bindir = os.path.join(_SCRATCH, "bin")
+        os.makedirs(bindir, exist_ok=True)
+        stub = os.path.join(bindir, "h5repack")
+        with open(stub, "w") as fh:
+            fh.write("#!/bin/sh\nexit 1\n")
+        os.chmod(stub, 0o755)
+        os.environ["PATH"] = bindir + os.pathsep + os.environ.get("PATH", "")
         atexit.register(shutil.rmtree, _SCRATCH, True)
     return _SCRATCH
 
 
 def _init(initfn):
+    import gc
     import warnings
     warnings.simplefilter("ignore")
+    gc.freeze()  # objects inherited from the parent (TLC graph, ...) are never traversed by gc.collect() again
     scratch()
     if initfn:
         initfn()
